@@ -1,0 +1,14 @@
+//go:build verif
+
+package query
+
+// VerifPipelineState returns the pipeline state machine's pending counter and completed flag
+// (both atomic loads) for the verification harness (property C19). ok is false when p is not
+// the pipeline created by NewExecutePipeline.
+func VerifPipelineState(p Pipeline) (pending int32, completed bool, ok bool) {
+	pp, isPipeline := p.(*pipeline)
+	if !isPipeline {
+		return 0, false, false
+	}
+	return pp.sm.pending.Load(), pp.sm.completed.Load(), true
+}
